@@ -709,14 +709,15 @@ def decReset (s : Dec) : Dec :=
 
 def decResetUnrepaired (s : Dec) : Dec := { (decReset s) with dcPrevPitchLag := s.dcPrevPitchLag }
 
-/-- Decoder members a later call may read before writing.  `DecControl.nChannelsInternal`,
-    `internalSampleRate` (opus_decoder.c:412-426, assigned whenever a packet is decoded; a concealment
-    call right after reset returns zeros at :318-325 before SILK is reached), `payloadSize_ms` (:408)
-    and `enable_deep_plc` (:429) are assigned before use.  The SILK decoder's own `nChannelsAPI` /
-    `nChannelsInternal` survive silk_ResetDecoder; silk_Decode (dec_API.c:171-215) compares them with the
-    new values only to re-initialise / copy state of the second channel, which after a reset is
-    already in the initial state (both channels freshly reset, resamplers re-created by
-    silk_decoder_set_fs with identical arguments), and then overwrites them: searched, not proved. -/
+/-- Decoder members a later call may read before writing.  `DecControl.payloadSize_ms` (opus_decoder.c:408)
+    and `enable_deep_plc` (:429) are assigned before every use and are omitted.  Gated:
+      `DecControl.nChannelsInternal`, `internalSampleRate`  assigned whenever a packet is decoded through SILK
+                      (:410-427); only concealment (data == NULL) reads the old values, and it reaches SILK only
+                      when `prev_mode` is SILK-only or hybrid (:311-325), i.e. after such a packet;
+      silk_decoder `nChannelsAPI`, `nChannelsInternal` (silk/dec_API.c:47-48)  survive silk_ResetDecoder;
+                      silk_Decode compares them with the new values (dec_API.c:171-215) only to re-initialise or
+                      copy second-channel state, which does nothing on a freshly reset SILK state (assumption,
+                      searched), and then overwrites them. -/
 structure DecView where
   celtDecOffset : Int
   silkDecOffset : Int
@@ -741,6 +742,10 @@ structure DecView where
   celtState : Blob
   celtComplexity : Int
   celtDisableInv : Int
+  dcNChannelsInternalGated : Int
+  dcInternalSampleRateGated : Int
+  silkNChannelsAPIGated : Int
+  silkNChannelsInternalGated : Int
   deriving DecidableEq, Repr
 
 def decView (s : Dec) : DecView :=
@@ -751,7 +756,11 @@ def decView (s : Dec) : DecView :=
     prevMode := s.prevMode, frameSize := s.frameSize, prevRedundancy := s.prevRedundancy,
     lastPacketDuration := s.lastPacketDuration, softclipMem := s.softclipMem, rangeFinal := s.rangeFinal,
     silkState := s.silkState, celtState := s.celtState, celtComplexity := s.celtComplexity,
-    celtDisableInv := s.celtDisableInv }
+    celtDisableInv := s.celtDisableInv,
+    dcNChannelsInternalGated := if s.prevMode = MODE_SILK_ONLY ∨ s.prevMode = MODE_HYBRID then s.dcNChannelsInternal else 0,
+    dcInternalSampleRateGated := if s.prevMode = MODE_SILK_ONLY ∨ s.prevMode = MODE_HYBRID then s.dcInternalSampleRate else 0,
+    silkNChannelsAPIGated := if s.silkState = .fresh then 0 else s.silkNChannelsAPI,
+    silkNChannelsInternalGated := if s.silkState = .fresh then 0 else s.silkNChannelsInternal }
 
 def DecObsEq (a b : Dec) : Prop := decView a = decView b
 instance (a b : Dec) : Decidable (DecObsEq a b) := by unfold DecObsEq; infer_instance
